@@ -95,7 +95,9 @@ def esc_text(s, quote=None):
 
 
 class Ref:
-    def __init__(self, default_marker, codes, helpers=None, log=None, case_first=False):
+    def __init__(self, default_marker, codes, helpers=None, log=None, case_first=False, options=None):
+        self.options = dict(options or {})
+        self.interp = [True]      # meta:interpolation stack (text, comments, CDATA of a subtree)
         # documentation: condition, repeat, case; implementation: case, condition, repeat.  The
         # property statement is silent, so harnesses accept either (two reference runs).
         self.case_first = case_first
@@ -202,8 +204,30 @@ class Ref:
             out.append(node)
             return
         if 'interp' in node:
+            if not self.interp[-1]:
+                out.append('${' + self.expr_src(node['interp']) + '}')
+                return
             v = self.ev(node['interp'], scope)
             out.append(self.to_text(v, True))
+            return
+        if 'dollar' in node:
+            out.append(('$' if self.interp[-1] else '$$') * node['dollar'])
+            return
+        if 'comment' in node:
+            kind = node.get('kind', '')
+            if kind == '!':
+                return                      # <!--! comments are dropped
+            on = (self.interp[-1] and kind == '' and
+                  self.options.get('enable_comment_interpolation', True))
+            out.append('<!--' + ('?' if kind == '?' and not self.options.get(
+                'enable_comment_interpolation', True) else ''))
+            self.parts(node['comment'], scope, out, on, True, kind == '?')
+            out.append('-->')
+            return
+        if 'cdata' in node:
+            out.append('<![CDATA[')
+            self.parts(node['cdata'], scope, out, self.interp[-1], False, False)
+            out.append(']]>')
             return
         if node.get('indent') is not None:
             out.append('\n' + ' ' * node['indent'])
@@ -216,6 +240,23 @@ class Ref:
                 self.on_error(node, scope, out, exc)
             return
         self.element(node, scope, out)
+
+    def expr_src(self, e):
+        from vlib.tprog import expr_text
+        return expr_text(e)
+
+    def parts(self, parts, scope, out, on, escape, keep_dollars):
+        """comment / CDATA content: interpolated when ``on``, else literal source text"""
+        for part in parts:
+            if isinstance(part, str):
+                out.append(part)
+            elif 'dollar' in part:
+                # $$ yields a single $ wherever interpolation is in force
+                out.append(('$' if on else '$$') * part['dollar'])
+            elif on:
+                out.append(self.to_text(self.ev(part['interp'], scope), escape))
+            else:
+                out.append('${' + self.expr_src(part['interp']) + '}')
 
     def on_error(self, node, scope, out, exc):
         self.handler_calls.append(exc)
@@ -304,6 +345,16 @@ class Ref:
         return None
 
     def once(self, node, scope, out):
+        sw = node.get('interp_switch')
+        if sw:
+            self.interp.append(sw in ('on', 'true'))
+        try:
+            self.once_(node, scope, out)
+        finally:
+            if sw:
+                self.interp.pop()
+
+    def once_(self, node, scope, out):
         frame = scope.push()
         try:
             if 'switch' in node:
@@ -356,6 +407,8 @@ class Ref:
                 for part in v:
                     if isinstance(part, str):
                         text = text + part
+                    elif 'dollar' in part:
+                        text = text + '$' * part['dollar']
                     else:
                         text = text + self.to_text(self.ev(part['interp'], scope), True, '"')
                 v = text
